@@ -84,7 +84,15 @@ def doc(d):
     return optlst(d.get("contexts"), lambda c: ctx(c, False)) + optlst(d.get("builders"), lambda c: ctx(c, True)) + \
            modlist(d, "modules") + modlist(d, "apps") + optlst(d.get("includes")) + optlst(d.get("subdirs")) + \
            (["-"] if "module" not in df else ["+"] + mod(df["module"])) + \
-           (["-"] if "app" not in df else ["+"] + mod(df["app"]))
+           (["-"] if "app" not in df else ["+"] + mod(df["app"])) + optlst(imports(d.get("imports")))
+
+def imports(l):
+    """local imports without symlink are modelled (by directory); anything else is not"""
+    if l is None: return None
+    for i in l:
+        if "path" not in i or i.get("symlink") or set(i) - {"path", "name", "dldir", "symlink"}:
+            raise ValueError("import not modelled: %r" % (i,))
+    return [i["path"] for i in l]
 
 def tree(files):
     """files: dict filename -> list of docs"""
